@@ -80,7 +80,8 @@ def ob_walk(ctx):
     P = ctx.P
     m, k = P["m"], 2
     Mod, Vec = stub_classes(st)
-    o = [ctx.mk.seq("o%d" % i, k, "ACGT") for i in range(m + 1)]
+    alpha = P.get("alphabet", "ACGT")  # with N: junctions that contain an unknown base (its complement is N again)
+    o = [ctx.mk.seq("o%d" % i, k, alpha) for i in range(m + 1)]
     bodies = [ctx.mk.seq("b%d" % i, 1 + i % 3, "ACGT") for i in range(m)]
     vbody = ctx.mk.seq("vb", 3, "ACGT")
     cs = []
@@ -96,6 +97,7 @@ def ob_walk(ctx):
             rc = rc_codes(o[j])
             cs.append(Not(And([Eq(sat(o[i], q), rc[q]) for q in range(k)])))
     ctx.assume(And(cs))
+    ctx.witness("junction-with-N", Or([Eq(sat(x, q), code_of("N")) for x in o for q in range(k)]))
     ctx.witness("vector-overhangs-reverse-complementary", And([Eq(sat(o[0], q), rc_codes(o[m])[q]) for q in range(k)]))
 
     def R(x):
@@ -203,6 +205,12 @@ def obligations(tier, seed):
         obs.append(Ob("typing generic %s over %s (3' overhang) and its reverse complement n=%d" % (role, e, F + 1), ob_typing,
                       dict(role=role, enzyme=e, n=F + 1), samples=4, cost=(F + 1) ** 3, expect_witness=("accepted", "rejected"),
                       group="3' overhang"))
+    from symx.core import code_of as _code
+
+    for m in (1, 2):
+        obs.append(Ob("walk m=%d vs reverse complements, junctions may contain the unknown base N" % m, ob_walk,
+                      dict(m=m, shuffle=False, alphabet=[0, 1, 2, 3, _code("N")]), samples=6, cost=30 ** m, group="unknown bases",
+                      expect_witness=("junction-with-N",)))
     for m in range(1, tier_pick(tier, 3, 4) + 1):
         for shuffle in (False, True):
             if m == 1 and shuffle:
